@@ -11,7 +11,8 @@ GEN_MODULES = ["Vector"]
 EXTRA_LEAN_MODULES = ["NiVerif.Model.Vector", "NiVerif.Model.VectorArgs"]
 THEOREMS = ["ctor_items", "ctor_rejects_mixed", "setItem_spec", "insert_spec", "mem_scatter", "setSlice_spec", "delete_keeps",
             "extend_spec", "remove_keeps", "type_inv_step", "type_inv", "eq_spec",
-            "gen_setitem_int_eq_model", "gen_setitem_slice_eq_model", "gen_setitem_slice_nonscalar", "gen_setitem_slice_refuses", "gen_insert_eq_model", "gen_delitem_eq_model", "gen_delslice_eq_model"]
+            "gen_setitem_int_eq_model", "gen_setitem_slice_eq_model", "gen_setitem_slice_nonscalar", "gen_setitem_slice_refuses", "gen_insert_eq_model", "gen_delitem_eq_model", "gen_delslice_eq_model",
+            "gen_ctor_eq_model", "gen_ctor_refuses_other_value_type", "gen_ctor_refuses_non_iterable"]
 RULE = ("Vectors built from lists, tuples, ranges, generators and other one-shot iterators of the four scalar types (incl. "
         "bool-in-int mixtures and offending items at every position), then seeded operation sequences (int and slice "
         "assignment with re-iterable and one-shot replacement iterables, deletion, insert, append, extend, +=, pop, remove, "
